@@ -1,6 +1,6 @@
 CONSTANTS
   NDocs = 120
-  NOperators = 41
+  NOperators = 42
   MaxSite = 14
 INIT Init
 NEXT Next
